@@ -6,4 +6,4 @@ CONSTANTS
   StrLen = 6
 INIT Init
 NEXT Next
-INVARIANTS WireRoundTrip TextRoundTrip Boundary Helpers SteppersFromStarts StrInv
+INVARIANTS WireRoundTrip TextRoundTrip Boundary Helpers SteppersFromStarts StrInv RawRoundTrip DenotesOwn
